@@ -1,7 +1,7 @@
 (* Checkers evaluated by the correspondence run: each returns the indices of
    the cases on which the model and the output observed on the real Go code
    differ, or on which the specification-side predicate fails. *)
-From V Require Import Common.Base C03.Num C03.SpecOps C03.Tree C03.Fold.
+From V Require Import Common.Base C03.Num C03.SpecOps C03.Tree C03.Fold C03.NumProofs.
 
 Fixpoint mism_from {A} (f : A -> bool) (l : list A) (i : nat) : list nat :=
   match l with
@@ -82,19 +82,6 @@ Definition check_mangle_if :=
 (* ---- numeric folding ---------------------------------------------------------- *)
 (* FoldBinaryOperator on two number literals: (op, left bits, right bits, kind, payload)
    kind 0: not folded; 1: number (payload = bits); 2: boolean (payload 0/1) *)
-Definition spec_int_op (op : binop) (l r : num) : option Z :=
-  (* ECMA-262 13.15.3 ApplyStringOrNumericBinaryOperator -> Number::leftShift etc. *)
-  let shift := spec_ToUint32 r mod 32 in
-  match op with
-  | BShl => let v := (spec_ToInt32 l * 2 ^ shift) mod 2 ^ 32 in Some (if 2 ^ 31 <=? v then v - 2 ^ 32 else v)
-  | BShr => Some (spec_ToInt32 l / 2 ^ shift)
-  | BUShr => Some (spec_ToUint32 l / 2 ^ shift)
-  | BBitAnd => Some (Z.land (spec_ToInt32 l) (spec_ToInt32 r))
-  | BBitOr => Some (Z.lor (spec_ToInt32 l) (spec_ToInt32 r))
-  | BBitXor => Some (Z.lxor (spec_ToInt32 l) (spec_ToInt32 r))
-  | _ => None
-  end.
-
 Definition fold_nn_ok (c : binop * Z * Z * Z * Z) : bool :=
   let '(op, lb, rb, kind, payload) := c in
   let l := num_of_bits lb in
